@@ -299,6 +299,10 @@ class ResponseHandler(BaseProtocol, DataQueue[tuple[RawResponseMessage, StreamRe
             self._read_timeout_handle = None
 
     def start_timeout(self) -> None:
+        if self._reading_paused:
+            # Nothing can arrive while we are not reading from the socket;
+            # resume_reading() arms the timer again.
+            return
         self._reschedule_timeout()
 
     @property
